@@ -93,7 +93,12 @@ Obs(st) == [st EXCEPT !.hid = NoHid]
 \* snapshotted, rebuilt from the configurations at start-up).  CfgTenant tells in which namespace a config key lives:
 \* "" (the default namespace) unless a configuration overrides the definition.
 CfgTenant(k) == ""
-TenantsInUse(st) == {CfgTenant(k) : k \in DOMAIN st.cfg} \ {""}
+\* ... and InstTenant in which namespace a persistent instance (its service) lives.  The service index announces a namespace
+\* as soon as a service exists in it; services that hold no persistent instance (ephemeral ones, an empty service waiting for
+\* its clean-up) are not replicated state and are not part of this specification - the conformance legs do not judge the
+\* NAMING mark of a namespace no persistent instance lives in.
+InstTenant(k) == ""
+TenantsInUse(st) == ({CfgTenant(k) : k \in DOMAIN st.cfg} \cup {InstTenant(k) : k \in DOMAIN st.nam}) \ {""}
 ListedNs(st) == [id \in (DOMAIN st.ns) \cup TenantsInUse(st) |-> IF id \in DOMAIN st.ns THEN st.ns[id] ELSE id]
 Served(st) == [Obs(st) EXCEPT !.ns = ListedNs(st)]
 
@@ -157,6 +162,13 @@ ApplyReq(st, r) ==
                                                                ELSE IF r.v # "" THEN r.v
                                                                ELSE IF r.k \in DOMAIN ListedNs(st) THEN ListedNs(st)[r.k] ELSE r.k)]
       [] r.t = "ns_del"  -> [st EXCEPT !.ns = Del(st.ns, r.k)]
+      \* NamespaceRaftReq::Update (the console's "edit namespace"): as Set.  (Until fix "namespace update creates" it changed
+      \* only a namespace the actor LISTED - a user namespace or one listed because it is in use - and whether an in-use
+      \* namespace is listed yet depends on when the notice of the config / service index arrives: the leader path, a
+      \* follower batch and the start-up replay of one log disagreed.  Found by C07 as soon as ns_upd was in the alphabet.)
+      [] r.t = "ns_upd"  -> [st EXCEPT !.ns = Put(st.ns, r.k, IF r.v = GivenEmpty THEN ""
+                                                               ELSE IF r.v # "" THEN r.v
+                                                               ELSE IF r.k \in DOMAIN ListedNs(st) THEN ListedNs(st)[r.k] ELSE r.k)]
       [] r.t = "usr_set" -> [st EXCEPT !.usr = Put(st.usr, r.k, r.v)]
       [] r.t = "usr_del" -> [st EXCEPT !.usr = Del(st.usr, r.k)]
       [] r.t = "seq_next" -> [st EXCEPT !.seq = Put(st.seq, r.k, (IF r.k \in DOMAIN st.seq THEN st.seq[r.k] ELSE 1) + 1)]
@@ -211,8 +223,6 @@ ApplyReq(st, r) ==
       \* ---- what a data import (transfer file) sends: whole values
       \* ConfigFullValue: value, type, description and history as given; the key is listed
       [] r.t = "cfg_full" -> [st EXCEPT !.cfg = Put(st.cfg, r.k, [content |-> r.v, ty |-> r.ty, desc |-> r.ds, hist |-> r.h])]
-      \* NamespaceRaftReq::Update: renames an existing namespace, does NOT create one
-      [] r.t = "ns_upd" -> IF r.k \in DOMAIN st.ns THEN [st EXCEPT !.ns = Put(st.ns, r.k, r.v)] ELSE st
       \* McpManagerRaftReq::SetToolSpec / SetServer / ImportFinished
       [] r.t = "tool_full" -> [st EXCEPT !.tool = Put(st.tool, r.k, [cur |-> r.cur, vers |-> r.vers])]
       [] r.t = "srv_full" -> WithHid([st EXCEPT !.srv = Put(st.srv, r.k, [name |-> r.v, cur |-> r.cur, rel |-> r.rel, hist |-> r.h])],
@@ -244,6 +254,7 @@ Requests ==
          [t : {"cfg_set"}, k : CKeys, v : Contents, ty : CTypes, ds : CDescs]
     \cup [t : {"cfg_del"}, k : CKeys]
     \cup [t : {"ns_set"}, k : NsIds, v : NsNames]
+    \cup [t : {"ns_upd"}, k : NsIds, v : NsNames]
     \cup [t : {"ns_del"}, k : NsIds]
     \cup [t : {"usr_set"}, k : UKeys, v : UVals]
     \cup [t : {"usr_del"}, k : UKeys]
@@ -394,18 +405,19 @@ ImportReqs(st) ==
        \o [i \in 1..Len(tools) |-> [t |-> "tool_full", k |-> tools[i], cur |-> st.tool[tools[i]].cur, vers |-> st.tool[tools[i]].vers]]
        \o [i \in 1..Len(srvs)  |-> [t |-> "srv_full", k |-> srvs[i], v |-> st.srv[srvs[i]].name, cur |-> st.srv[srvs[i]].cur,
                                      rel |-> st.srv[srvs[i]].rel, h |-> st.srv[srvs[i]].hist]]
-       \o [i \in 1..Len(nss)   |-> [t |-> "ns_upd", k |-> nss[i], v |-> st.ns[nss[i]]]]
+       \o [i \in 1..Len(nss)   |-> [t |-> "ns_set", k |-> nss[i], v |-> IF st.ns[nss[i]] = "" THEN GivenEmpty ELSE st.ns[nss[i]]]]
        \o [i \in 1..Len(usrs)  |-> [t |-> "usr_set", k |-> usrs[i], v |-> st.usr[usrs[i]]]]
        \o [i \in 1..Len(nams)  |-> [t |-> "nam_set", k |-> nams[i], w |-> st.nam[nams[i]].w, en |-> st.nam[nams[i]].en, upd |-> TRUE]]
        \o <<[t |-> "mcp_fin"]>>
 \* what an empty node serves after the import
 Imported(st) == LET q == ImportReqs(st) IN Obs(Fold(Empty, q, 1, Len(q)))
-\* ... and what it should: everything exported.  As coded a namespace arrives as an UPDATE, which an empty
-\* target ignores (a namespace is only re-created as a side effect of a config that lives in it - outside this
-\* model): the import rebuilds everything except the namespaces.  (Not one of the listed properties; checked
-\* at model level and observed - not judged - on the code.)
+\* ... and what it should: everything exported.  (Until fix "data import creates the namespaces of the backup" a
+\* namespace arrived as an UPDATE, which changes nothing for a namespace the target does not list: the backup's
+\* namespaces were lost on an empty target - or applied, when an imported service had already made the namespace "in
+\* use" and that notice had reached the namespace actor, which differed between the live import and the start-up
+\* replay of its log entries: the C01 transfer leg found it as soon as an instance lived in a user namespace.)
 Exportable(st) == [Obs(st) EXCEPT !.seq = EmptyF, !.cch = EmptyF]
-ImportRebuildsAllButNamespaces == Imported(sm) = [Exportable(sm) EXCEPT !.ns = EmptyF]
+ImportRebuildsAll == Imported(sm) = Exportable(sm)
 
 \* ---- thin-case generation (MCP): behaviours in which a tool that some server referred to is changed or removed
 \* later on, with a compaction somewhere - the shapes in which bookkeeping that is kept incrementally, or not
